@@ -107,6 +107,11 @@ func (st *State) rgAssumeInv(pos token.Pos, what string) {
 // rgStabilize models the interference of the environment before an atomic step.
 func (st *State) rgStabilize(pos token.Pos) {
 	fc := st.fc
+	if !fc.rgClosureDone && fc.rec == nil {
+		// (checked once per function, at the first interference point, where the locals the clauses mention exist)
+		fc.rgClosureDone = true
+		st.clone().rgCheckRelyClosure(pos)
+	}
 	old := st.snapshot(nil)
 	var names []string
 	for n := range st.heap {
@@ -142,5 +147,52 @@ func (st *State) rgCheckStep(anchor string, pos token.Pos) {
 		g := env.evalBool(c.Expr)
 		st.oblige("sharedinv", fmt.Sprintf("%s/sharedinv%d", anchor, i+1), g, pos)
 		st.assume(g)
+	}
+}
+
+
+// rgCheckRelyClosure: the rely relation of this function is reflexive and transitive (so that one rely step between two
+// of my atomic steps stands for any number of steps of the environment). Checked on three arbitrary shared states
+// s0 -R-> s1 -R-> s2 (all satisfying the shared invariant, local variables fixed): R(s0,s2) must follow.
+func (st *State) rgCheckRelyClosure(pos token.Pos) {
+	fc := st.fc
+	if len(fc.Contract.Rely) == 0 {
+		return
+	}
+	// touch every heap the clauses mention, so that all of them get havocked below
+	s0 := st
+	func() {
+		defer func() { recover() }()
+		for _, c := range fc.Contract.Rely {
+			fc.newSpecEnv(s0, nil, s0.snapshot(nil), pos, fc.Name+"/rely").evalBool(c.Expr)
+		}
+	}()
+	snap0 := s0.snapshot(nil)
+	// reflexivity
+	for i, c := range fc.Contract.Rely {
+		env := fc.newSpecEnv(s0, nil, snap0, pos, fc.Name+"/rely-reflexive")
+		s0.oblige("rely-closure", fmt.Sprintf("reflexive/rely%d", i+1), env.evalBool(c.Expr), pos)
+	}
+	step := func(s *State) *Snapshot {
+		old := s.snapshot(nil)
+		var names []string
+		for n := range s.heap {
+			names = append(names, n)
+		}
+		sortStrings(names)
+		for _, n := range names {
+			s.heapHavoc(n, fc.heapSorts[n])
+		}
+		for _, c := range fc.Contract.Rely {
+			s.assume(fc.newSpecEnv(s, nil, old, pos, fc.Name+"/rely").evalBool(c.Expr))
+		}
+		s.rgAssumeInv(pos, "closure")
+		return old
+	}
+	step(s0)
+	step(s0)
+	for i, c := range fc.Contract.Rely {
+		env := fc.newSpecEnv(s0, nil, snap0, pos, fc.Name+"/rely-transitive")
+		s0.oblige("rely-closure", fmt.Sprintf("transitive/rely%d", i+1), env.evalBool(c.Expr), pos)
 	}
 }
